@@ -134,6 +134,70 @@ class _DT:
 
 _SHIM = None
 
+# What SQLite itself reports when a statement cannot run (type, message, sqlite_errorcode, sqlite_errorname).  A fault of the
+# families `sqlerr` / `session` is one of these, raised ONCE at a statement boundary by the statement that was about to run - the
+# same statement (or any other) works when it is issued again, as after a lock held by another process or a full disk that was
+# cleaned up.  (The older faults are an exception class of the harness's own, which no code can mistake for something it knows.)
+SQL_ERRORS = {
+    "locked": ("OperationalError", "database is locked", 5, "SQLITE_BUSY"),
+    "tablelocked": ("OperationalError", "database table is locked", 6, "SQLITE_LOCKED"),
+    "busysnapshot": ("OperationalError", "database is locked", 517, "SQLITE_BUSY_SNAPSHOT"),
+    "ioerr": ("OperationalError", "disk I/O error", 10, "SQLITE_IOERR"),
+    "full": ("OperationalError", "database or disk is full", 13, "SQLITE_FULL"),
+    "readonly": ("OperationalError", "attempt to write a readonly database", 8, "SQLITE_READONLY"),
+    "interrupted": ("OperationalError", "interrupted", 9, "SQLITE_INTERRUPT"),
+    "cantopen": ("OperationalError", "unable to open database file", 14, "SQLITE_CANTOPEN"),
+    "corrupt": ("DatabaseError", "database disk image is malformed", 11, "SQLITE_CORRUPT"),
+    "notadb": ("DatabaseError", "file is not a database", 26, "SQLITE_NOTADB"),
+    "unique": ("IntegrityError", "UNIQUE constraint failed: known_hosts.hostname, known_hosts.port", 1555, "SQLITE_CONSTRAINT_PRIMARYKEY"),
+    "toobig": ("DataError", "string or blob too big", 18, "SQLITE_TOOBIG"),
+}
+
+
+def sql_error(name: str) -> BaseException:
+    """the exception object sqlite3 raises for that condition (marked so that the harness can tell it from one that SQLite raised)"""
+    import sqlite3
+
+    tname, msg, code, ename = SQL_ERRORS[name]
+    e = getattr(sqlite3, tname)(msg)
+    try:
+        e.sqlite_errorcode, e.sqlite_errorname = code, ename
+    except AttributeError:
+        pass
+    e.nv_injected = name
+    return e
+
+
+def err_text(name) -> str:
+    if name is None:
+        return "an injected exception"
+    tname, msg, _, ename = SQL_ERRORS[name]
+    return f"sqlite3.{tname}({msg!r}) [{ename}], raised once"
+
+
+_SHIM_CLASS = None
+
+
+def shim_class():
+    """the statement shim, extended by faults that look like SQLite's own errors (mode `raise:<name>`)"""
+    global _SHIM_CLASS
+    if _SHIM_CLASS is None:
+        from ..sim.store_sqlshim import Shim
+
+        class ErrShim(Shim):
+            def boundary(self, conn_id, tag):
+                if self.k is not None and self.n == self.k and not self.fired and self.mode.startswith("raise:"):
+                    self.fired = True
+                    raise sql_error(self.mode[6:])
+                super().boundary(conn_id, tag)
+
+        _SHIM_CLASS = ErrShim
+    return _SHIM_CLASS
+
+
+def fault_mode(err) -> str:
+    return "raise" if err is None else f"raise:{err}"
+
 
 def instrument():
     """(idempotent) substitute sqlite3, datetime and the fingerprint function inside nauyaca.security.tofu"""
@@ -142,10 +206,8 @@ def instrument():
 
     from nauyaca.security import tofu
 
-    from ..sim.store_sqlshim import Shim
-
     if _SHIM is None or tofu.sqlite3 is not _SHIM:
-        _SHIM = Shim()
+        _SHIM = shim_class()()
         tofu.sqlite3 = _SHIM
         tofu.datetime = types.SimpleNamespace(datetime=_DT, timezone=real_dt.timezone, timedelta=real_dt.timedelta)
         tofu.get_certificate_fingerprint = lambda cert: cert
@@ -274,7 +336,7 @@ def classify_exc(e: BaseException) -> str:
     from ..sim.store_sqlshim import Injected
 
     m = str(e)
-    if isinstance(e, Injected):
+    if isinstance(e, Injected) or getattr(e, "nv_injected", None):
         return "fault"
     if isinstance(e, (CbBoom, CbInterrupt)):
         return "fail:callback"
@@ -594,7 +656,7 @@ class TxnFamily(Family):
                 wk = os.path.join(d, f"w{k}")
                 os.mkdir(wk)
                 if self.mode == "raise":
-                    o, _ = run_op(work, case["op"], case["now"], wk, k, "raise")
+                    o, _ = run_op(work, case["op"], case["now"], wk, k, fault_mode(case.get("err")))
                 else:
                     pid = os.fork()
                     if pid == 0:
@@ -630,9 +692,10 @@ class TxnFamily(Family):
         what = op["kind"] + (("-merge" if op["merge"] else "-replace") if op["kind"] == "import" else "")
         if obs["outcome"].startswith("fail") and complete != before:
             return ("failed-op-changed-store", f"{what} raised ({obs['outcome']}) but the store changed: before {before!r}, after {complete!r}")
+        how = "fault" if self.mode != "raise" or case.get("err") is None else f"fault ({err_text(case['err'])})"
         for k, st in enumerate(obs["crashes"]):
             if st != before and st != complete:
-                return ("crash-not-atomic", f"{what}: fault at statement boundary {k} of [{obs['script']}] left the store neither as before nor as after: "
+                return ("crash-not-atomic", f"{what}: {how} at statement boundary {k} of [{obs['script']}] left the store neither as before nor as after: "
                         f"{st!r} (before {before!r}, complete {complete!r})")
         for label, st in [("complete", complete)] + [(f"crash@{k}", s) for k, s in enumerate(obs["crashes"])]:
             b = {(r[0], r[1]): r for r in before if not named(op, r[0], r[1])}
@@ -647,7 +710,8 @@ class TxnFamily(Family):
         if k == "import":
             k += ":" + ("merge" if op["merge"] else "replace") + ":" + (op.get("file") or "ok")
         odd = any(ord(ch) > 126 or ch in ':"\'\\[]=#\n\r\t\x00 ' for r in case["store"] for ch in r[0])
-        return f"{k} {obs['outcome'].split(',')[0][:16]} boundaries={min(len(obs['crashes']), 9)} odd={int(odd)} {','.join(obs['faults'])[:20]}"
+        return (f"{k} {obs['outcome'].split(',')[0][:16]} boundaries={min(len(obs['crashes']), 9)} odd={int(odd)} {','.join(obs['faults'])[:20]}"
+                + (f" err={case['err']}" if case.get("err") else ""))
 
 
 class Fault(TxnFamily):
@@ -662,6 +726,61 @@ class Kill(TxnFamily):
     mode = "exit"
     quick_n = 160
     thorough_n = 6000
+
+
+class SqlErr(TxnFamily):
+    """the fault at every statement boundary is one of the errors SQLite itself raises (`SQL_ERRORS`: database is locked, disk I/O
+    error, database or disk is full, UNIQUE constraint failed, ...), raised once: whatever the operation does about it - give up,
+    wait and issue the statement again, carry on - the store ends exactly as before or exactly as after the undisturbed operation.
+    Imports of several entries (many writing statements in one transaction) in both modes make up most of the cases."""
+    name = "sqlerr"
+    mode = "raise"
+    quick_n = 360
+    thorough_n = 8000
+
+    def gen(self, rng, n):
+        names = sorted(SQL_ERRORS)
+        st = [["old-a.example", 1965, 1, 10, 10], ["::1", 1965, 2, 20, 20], ["shared.example", 1965, 3, 30, 30]]
+        ents = [{"host": "new-1.example", "port": 1965, "fp": 4, "first": 70}, {"host": "new-2.example", "port": 300, "fp": 5, "first": 71},
+                {"host": "shared.example", "port": 1965, "fp": 6, "first": 72}, {"host": "bücher.example", "port": 1965, "fp": 7, "first": 73}]
+        fixed = [{"store": st, "op": {"kind": "import", "merge": mg, "entries": ents, "cb": "uuuuu"}, "now": 500, "err": e}
+                 for e in ("locked", "full", "unique") for mg in (True, False)]
+        fixed += [{"store": st, "op": {"kind": "trust", "host": "::1", "port": 1965, "fp": 9}, "now": 500, "err": "locked"},
+                  {"store": st, "op": {"kind": "revokehost", "host": "::1"}, "now": 500, "err": "ioerr"}]
+        count = 0
+        for c in self.share(fixed):
+            yield c
+            count += 1
+        while count < n:
+            store = gen_store(rng)
+            now = rng.randint(401, 900)
+            hosts = HOSTS if rng.random() < 0.5 else HOSTS[:6]
+            err = names[count % len(names)] if rng.random() < 0.7 else "locked"
+            if rng.random() < 0.25:
+                kind = rng.choice(["trust", "verify", "revoke", "revokehost", "clear", "init"])
+                row = rng.choice(store) if store and rng.random() < 0.7 else [rng.choice(hosts), rng.choice(PORTS), rng.randint(1, 8)]
+                op = {"kind": kind}
+                if kind in ("trust", "verify"):
+                    op.update(host=row[0], port=row[1], fp=row[2] if rng.random() < 0.5 else rng.randint(1, 8))
+                elif kind == "revoke":
+                    op.update(host=row[0], port=row[1])
+                elif kind == "revokehost":
+                    op.update(host=row[0])
+            else:
+                entries = [good_entry(rng, store, hosts) for _ in range(rng.choice([1, 2, 3, 3, 4, 5, 6]))]
+                if rng.random() < 0.2:
+                    d = dict(rng.choice(entries))                     # duplicate host inside the file
+                    d["fp"] = rng.randint(1, 8)
+                    d.pop("fpraw", None)
+                    entries.insert(rng.randint(0, len(entries)), d)
+                if rng.random() < 0.2:                               # a defective entry behind entries that were written
+                    bad = make_defect(rng, good_entry(rng, store, hosts), rng.choice(["missing", "badfp", "badport", "notable"]))
+                    entries.insert(rng.randint(1, len(entries)), bad)
+                cbr = rng.random()
+                cb = None if cbr < 0.2 else "".join(rng.choice("uuus" if cbr < 0.85 else "usr") for _ in range(len(entries) + 1))
+                op = {"kind": "import", "merge": rng.random() < 0.5, "entries": entries, "cb": cb}
+            yield {"store": store, "op": op, "now": now, "err": err}
+            count += 1
 
 
 # ----------------------------------------------------------------------------------------------
@@ -746,6 +865,12 @@ class Session(Family):
         fixed.append({"store": st, "reuse": True, "probe": 1,
                       "steps": [{"op": {"kind": "import", "merge": False, "entries": bad_tail[:2], "cb": "uu"}, "now": 500, "fault": 3},
                                 {"op": {"kind": "verify", "host": "::1", "port": 1966, "fp": 3}, "now": 510}]})
+        for merge in (True, False):
+            for k in (3, 5):
+                fixed.append({"store": st, "reuse": merge, "probe": 1,
+                              "steps": [{"op": {"kind": "import", "merge": merge, "entries": bad_tail[:2] + [{"host": "w", "port": 1965, "fp": 3, "first": 73}], "cb": "uuu"},
+                                         "now": 500, "fault": k, "err": "locked"},
+                                        {"op": {"kind": "verify", "host": "::1", "port": 1966, "fp": 3}, "now": 510}]})
         count = 0
         for c in self.share(fixed):
             yield c
@@ -761,6 +886,8 @@ class Session(Family):
                 step = {"op": op, "now": now}
                 if rng.random() < 0.15:
                     step["fault"] = rng.choice([0, 1, 2, 2, 3, 4, 6])      # an SQL error at this statement boundary of the step (if it has that many)
+                    if rng.random() < 0.5:
+                        step["err"] = rng.choice(sorted(SQL_ERRORS) + ["locked"] * 4)   # ... that looks like one of SQLite's own, raised once
                 steps.append(step)
                 if op["kind"] in ("trust",):
                     known.append([op["host"], op["port"], op["fp"], now, now])
@@ -791,12 +918,12 @@ class Session(Family):
                 cp = os.path.join(d, f"alone{i}.db")
                 if k is not None:
                     shutil.copy(path, cp)             # the (committed) state this step starts from
-                out, script = run_op(path, step["op"], step["now"], w, k, "raise", db=cur)
+                out, script = run_op(path, step["op"], step["now"], w, k, fault_mode(step.get("err")), db=cur)
                 outcomes.append(out)
                 fired.append(out == "fault")
                 file_views.append(read_rows(path))
                 own_views.append(own_rows(cur))
-                if out == "fault":
+                if k is not None:
                     # what the step does when nothing interferes: the same operation on the copy
                     wa = os.path.join(d, f"wa{i}")
                     os.mkdir(wa)
@@ -854,8 +981,9 @@ class Session(Family):
                 b, a = view[i], view[i + 1]
                 if out.startswith("fail") and a != b:
                     return ("failed-op-changed-store", f"{where}: {what} raised ({out}) but {label} changed: before {b!r}, after {a!r}")
-                if out == "fault" and a != b and a != obs["alone"][i]:
-                    return ("crash-not-atomic", f"{where}: an SQL error at statement boundary {step.get('fault')} of {what} left {label} neither as before nor "
+                if step.get("fault") is not None and not out.startswith("fail") and a != b and a != obs["alone"][i]:
+                    # whether the error came out of the operation (out == "fault") or the operation dealt with it and went on
+                    return ("crash-not-atomic", f"{where}: an SQL error ({err_text(step.get('err'))}) at statement boundary {step.get('fault')} of {what} left {label} neither as before nor "
                             f"as after: {a!r} (before {b!r}, after the undisturbed operation {obs['alone'][i]!r})")
                 bb = {(r[0], r[1]): r for r in b if not named(op, r[0], r[1])}
                 aa = {(r[0], r[1]): r for r in a if not named(op, r[0], r[1])}
@@ -1217,4 +1345,4 @@ class RoundTrip(Family):
         return f"n={min(len(hs), 9)} {'+'.join(cls) or 'plain'} {'error' if 'error' in obs else 'ok'}{env}"
 
 
-FAMILIES = [Fault(), Kill(), Session(), Bulk(), RoundTrip()]
+FAMILIES = [Fault(), Kill(), SqlErr(), Session(), Bulk(), RoundTrip()]
